@@ -91,6 +91,10 @@ def on_apply(rows) -> None:
     """Per-request processing delay: the request id is encoded in the key column."""
     from detsim import kernel as kmod  # pylint: disable=import-outside-toplevel
 
+    if any(row[1] == POISON for row in rows):
+        import forml  # pylint: disable=import-outside-toplevel
+
+        raise forml.InvalidError('poisoned feature value')
     k = kmod.current()
     if not k or not rows:
         return
@@ -100,6 +104,10 @@ def on_apply(rows) -> None:
     if delay > 0:
         k.stats['fault:request-delay'] += 1
         k.sleep(delay, 'model.delay')
+
+
+POISON = -777  # a feature value the model refuses (an in-pipeline, platform-level failure of that request only)
+FANOUT = {'p1', 'p2'}  # projects whose apply graph fans out (shared source value -> two branches -> join)
 
 
 def answer(state: int, bias: int, row) -> int:
@@ -145,7 +153,7 @@ def write_project(target: pathlib.Path, project: str, release: str) -> prjmod.Pa
     '''))
     (pkg / 'pipeline.py').write_text(textwrap.dedent(f'''
         from forml import project
-        from forml.pipeline import wrap
+        from forml.pipeline import payload, wrap
         from workloads import serving
 
         BIAS = {bias_of(project, release)}
@@ -157,13 +165,21 @@ def write_project(target: pathlib.Path, project: str, release: str) -> prjmod.Pa
                 state = BASE
             return state + sum(labels)
 
-        @wrap.Operator.apply
-        @model.apply
-        def model(state, rows):
+        @{'model.apply' if project in FANOUT else 'wrap.Operator.apply'}
+        {'def' if project in FANOUT else '@model.apply\n        def'} model(state, rows):
             serving.on_apply(rows)
             return [serving.answer(state, BIAS, r) for r in rows]
 
-        project.setup(model())
+        @wrap.Actor.apply
+        def keys(rows):
+            return [r[0] for r in rows]
+
+        @wrap.Actor.apply
+        def combine(predictions, keys):
+            assert len(predictions) == len(keys)
+            return predictions
+
+        project.setup({'payload.MapReduce(model.builder(), keys.builder(), reducer=combine.builder())' if project in FANOUT else 'model()'})
     '''))
     prjmod.Manifest(project, release, name).write(target)
     return prjmod.Package(target)
